@@ -451,6 +451,12 @@ func streamChan(o *Out, r *rand.Rand, n int, thorough bool) {
 		{"go-literal-defers-run-on-runtime-error", "out = make(chan int64, 4)\ndone = make(chan bool, 1)\ngo func(k) {\ndefer func() { done <- true }()\ndefer func() { close(out) }()\nout <- k\nx = [1][5]\nout <- 99\n}(7)\nr = []\nfor v in out {\nr += v\n}\n[r, <-done]", "[[7],true]"},
 		{"go-literal-defers-run-on-send-on-closed", "c = make(chan int64, 1)\nclose(c)\ndone = make(chan int64, 1)\ngo func() {\ndefer func() { done <- 5 }()\nc <- 1\n}()\n<-done", "5"},
 		{"go-named-defers-run-on-failure", "out = make(chan int64, 4)\nfunc stage(k) {\ndefer func() { close(out) }()\nout <- k\nthrow \"failed\"\n}\ngo stage(3)\nr = []\nfor v in out {\nr += v\n}\nr", "[3]"},
+		// a for-in over a channel takes ONE item per round: what it has not handed to its body is still in the channel
+		{"range-left-early-rest-stays", "c = make(chan int64, 10)\nfor i = 0; i < 10; i++ {\nc <- i\n}\nclose(c)\nfirst = []\nfor v in c {\nfirst += v\nif v == 2 {\nbreak\n}\n}\nrest = []\nfor v in c {\nrest += v\n}\n[first, rest]", "[[0,1,2],[3,4,5,6,7,8,9]]"},
+		{"range-body-receives-from-same", "c = make(chan int64, 8)\nfor i = 0; i < 8; i++ {\nc <- i\n}\nclose(c)\npairs = []\nfor a in c {\nb = <-c\npairs += a * 10 + b\n}\npairs", "[1,23,45,67]"},
+		{"range-left-by-return-rest-stays", "c = make(chan int64, 6)\nfor i = 1; i <= 6; i++ {\nc <- i\n}\nfunc firstEven() {\nfor v in c {\nif v % 2 == 0 {\nreturn v\n}\n}\n}\n[firstEven(), firstEven(), len(c)]", "[2,4,2]"},
+		{"range-left-by-error-rest-stays", "c = make(chan int64, 4)\nfor i = 1; i <= 4; i++ {\nc <- i\n}\ntry {\nfor v in c {\nthrow \"stop\"\n}\n} catch e {\n}\n[<-c, len(c)]", "[2,2]"},
+		{"workers-stop-on-their-own-mark", "jobs = make(chan int64, 16)\ndone = make(chan int64, 4)\nfor w = 0; w < 4; w++ {\ngo func() {\nvar n = 0\nfor j in jobs {\nif j < 0 {\nbreak\n}\nn += j\n}\ndone <- n\n}()\n}\nfor i = 1; i <= 8; i++ {\njobs <- i\n}\nfor w = 0; w < 4; w++ {\njobs <- -1\n}\ntotal = 0\nfor w = 0; w < 4; w++ {\ntotal += <-done\n}\ntotal", "36"},
 		{"unbuffered-handoff", "c = make(chan int64)\nd = make(chan int64)\ngo func() {\nfor x in c {\nd <- x + 1\n}\nclose(d)\n}()\ngo func() {\nc <- 1\nc <- 2\nclose(c)\n}()\nr = []\nfor y in d {\nr += y\n}\nr", "[2,3]"},
 	}
 	for _, t := range templates {
